@@ -15,6 +15,7 @@ import (
 	"os"
 	"os/exec"
 	"strings"
+	"sync/atomic"
 )
 
 type M = map[string]interface{}
@@ -133,8 +134,8 @@ func main() {
 			}
 			cst := runIsolated(outf, id, ops)
 			nops += len(ops)
-			faultRuns += cst.FaultRuns
-			renderCalls += cst.Renders
+			faultRuns.Add(int64(cst.FaultRuns))
+			renderCalls.Add(int64(cst.Renders))
 			continue
 		}
 		runScenario(w, id, ops, facets, *flagEvery, sub)
@@ -145,15 +146,15 @@ func main() {
 	}
 	stats["scenarios"] = n
 	stats["ops"] = nops
-	stats["faultruns"] = faultRuns
-	stats["renders"] = renderCalls
+	stats["faultruns"] = faultRuns.Load()
+	stats["renders"] = renderCalls.Load()
 	finish()
 	b, _ := json.Marshal(stats)
 	fmt.Fprintf(os.Stderr, "vdrive: %s\n", b)
 }
 
 // counters reported in the driver's stats line (evidence)
-var faultRuns, renderCalls int
+var faultRuns, renderCalls atomic.Int64 // (scenarios also run on goroutines of their own: C16)
 
 func touchesRegistry(ops []M) bool {
 	for _, op := range ops {
